@@ -111,6 +111,9 @@ impl NodeKey {
 #[derive(Clone, Debug, PartialEq)]
 pub enum InOp {
     Write(VarId, WriteOp),
+    /// `Write` whose closure (update / modify / replace_with) first performs the second write, on
+    /// another variable
+    WriteNested(VarId, WriteOp, VarId, WriteOp),
     ReadVar(VarId),
     ReadObs(usize),
     /// drops the harness's handle of the variable from inside the closure (after any writes)
